@@ -135,7 +135,14 @@ def _judge(H, net):
 
     want, lds, cxs = oracle(net)
     fails = []
-    for view, obj in (("hypergraph", H), ("bipartite_str", hypergraph_to_bipartite(H)), ("bipartite_int", hypergraph_to_bipartite(H, integer_ids=True))):
+    bip = hypergraph_to_bipartite(H)
+    rev = type(bip)()  # the same bipartite graph with nodes and arcs inserted in the opposite order
+    rev.graph.update(bip.graph)
+    for v, d in reversed(list(bip.nodes(data=True))):
+        rev.add_node(v, **dict(d))
+    for u, v, d in reversed(list(bip.edges(data=True))):
+        rev.add_edge(u, v, **dict(d))
+    for view, obj in (("hypergraph", H), ("bipartite_str", bip), ("bipartite_int", hypergraph_to_bipartite(H, integer_ids=True)), ("bipartite_reversed_insertion", rev)):
         an = DeficiencyAnalyzer(obj).compute_summary().compute_linkage_deficiencies()
         s = an.summary
         got = {k: getattr(s, k) for k in want}
@@ -167,7 +174,7 @@ def _judge(H, net):
         if cxi is not None and set(map(tuple, cxi)) != cxs:
             fails.append(Fail("complexes", f"{view}: {sorted(set(map(tuple, cxi)))}", str(sorted(cxs)), key_extra=view))
     nt = want["n_linkage_classes"] > 1 or want["deficiency"] > 0 or not want["weakly_reversible"]
-    return Outcome(nontrivial=nt, outcome=f"c{want['n_complexes']}l{want['n_linkage_classes']}d{want['deficiency']}wr{int(want['weakly_reversible'])}", fails=fails, transitions=9)
+    return Outcome(nontrivial=nt, outcome=f"c{want['n_complexes']}l{want['n_linkage_classes']}d{want['deficiency']}wr{int(want['weakly_reversible'])}", fails=fails, transitions=12)
 
 
 def judge(H, net):
